@@ -184,21 +184,25 @@ def _probe_state(args):
     tails.append([("disconnect_fault",)])               # close() raising must not matter
     tails.append([("disconnect_fault",), ("connect", "ok")])
     tails.append([("disconnect_fault",), ("connect", "oldfw")])
+    # one long blocked session: every operation in turn on the same latched object (a retry
+    # counter, a guard that gives way after N refusals)
+    runs = [list(steps) + [("op", op) for op in ops] + [("op", op) for op in ops[::-1]]]
     for tail in tails:
         for op in ops:
-            full = list(steps) + tail + [("op", op)]
-            chooser = Chooser(vector)
-            viols, states, checked, _obj = run_history(chooser, full)
-            if len(chooser.trace) < len(vector):
-                from ..explore import HarnessDivergence     # pylint: disable=import-outside-toplevel
-                raise HarnessDivergence("history replay consumed fewer choices than recorded")
-            for key, msg in viols:
-                part.violation(key, msg, _case(full, chooser.vector()))
-            part.count("transitions", len(full))
-            part.count("blocked_transitions_checked", checked)
-            part.count("executions")
-            for state in states:
-                part.add("states", core.digest(state))
+            runs.append(list(steps) + tail + [("op", op)])
+    for full in runs:
+        chooser = Chooser(vector)
+        viols, states, checked, _obj = run_history(chooser, full)
+        if len(chooser.trace) < len(vector):
+            from ..explore import HarnessDivergence     # pylint: disable=import-outside-toplevel
+            raise HarnessDivergence("history replay consumed fewer choices than recorded")
+        for key, msg in viols:
+            part.violation(key, msg, _case(full, chooser.vector()))
+        part.count("transitions", len(full))
+        part.count("blocked_transitions_checked", checked)
+        part.count("executions")
+        for state in states:
+            part.add("states", core.digest(state))
     return part
 
 
@@ -256,14 +260,16 @@ def run(ctx):
         "states": part.size("states"),
         "transitions": cnt.get("transitions", 0),
         "traces_validated_against_impl": cnt.get("executions", 0),
-        "evaluations": cnt.get("executions", 0),
+        "evaluations": cnt.get("transitions", 0),       # every executed transition is one case
         "distinct_nontrivial": cnt.get("blocked_transitions_checked", 0),
         "rule": "phase 1: every request method (introspected) from the healthy state under "
                 "every environment vector with <= bound deviations -> blocked states; phase 2/3: "
                 "from every blocked state (and 12 not-connected states) every method, then "
                 "disconnect / connect(ok, non-EBB, open fails, silent, old firmware, version-less "
                 "banner, name not found, without disconnect) and "
-                "every method again; non-trivial = transitions whose pre-state was error-latched "
+                "every method again, plus one long session running every method twice on the latched "
+                "object; evaluations = executed transitions; non-trivial = transitions whose "
+                "pre-state was error-latched "
                 "or not connected (zero-write, failure-value, no-raise, latch invariants checked)",
         "samples": samples,
         "request_methods": sorted({op[1] for op in ops}),
